@@ -71,34 +71,30 @@ def uint_class(v: int) -> str:
 
 def sint_class(v: int) -> str:
     mag = abs(v)
-    tags = []
-    if R.uintvar(mag)[0] & 0x40:
-        tags.append("bit6_of_leading_septet")
     if mag >= 128 and mag % 128 == 0:
-        tags.append("low_septet_zero")
-    return "+".join(tags) if tags else f"septets_{R.n_sint_septets(mag)}"
+        return "low_septet_zero"
+    if R.uintvar(mag)[0] & 0x40:
+        return "bit6_of_leading_septet"
+    return f"septets_{R.n_sint_septets(mag)}"
+
+
+def _fraction_has_leading_zero_septet(f: int, p: int) -> bool:
+    """after dropping trailing zero septets (value-preserving) the fraction still starts with a zero septet"""
+    while p > 1 and f % 128 == 0:
+        f //= 128
+        p -= 1
+    return p >= 2 and f < 128 ** (p - 1)
 
 
 def float_class(i: int, f: int, p: int, signed: bool) -> str:
-    tags = []
+    """input class = the first root-cause class the value falls in (one tag, so that buckets follow root causes)"""
     if i >= 128 and i % 128 == 0:
-        tags.append("int_low_septet_zero")
+        return "int_low_septet_zero"
     if signed and R.uintvar(i)[0] & 0x40:
-        tags.append("int_bit6_of_leading_septet")
-    if p >= 2 and 0 < f < 128 ** (p - 1):
-        tags.append("fraction_leading_zero_septet")
-    elif p >= 2 and f and f % 128 == 0:
-        # after dropping trailing zero septets the remaining fraction may again start with zero septets
-        g = f
-        q = p
-        while g and g % 128 == 0:
-            g //= 128
-            q -= 1
-        if q >= 2 and g < 128 ** (q - 1):
-            tags.append("fraction_leading_zero_septet")
-        else:
-            tags.append("fraction_trailing_zero_septet")
-    return "+".join(tags) if tags else "plain"
+        return "int_bit6_of_leading_septet"
+    if _fraction_has_leading_zero_septet(f, p):
+        return "fraction_leading_zero_septet"
+    return "plain"
 
 
 # ---------------------------------------------------------------------------------------------- oracles
@@ -564,14 +560,15 @@ def drv_infotime(ctx: Ctx, sub: SubCheck):
     if day_step == 1 and sec_step == 1:
         ctx.tally.notes.append("info-time: every calendar date 2000-2099 and every second of a day enumerated (the six fields are encoded independently)")
 
-    strat = st.tuples(st.integers(0, N_DAYS - 1), st.integers(0, 86399), st.sampled_from(range(3))).map(lambda t: dict(_dt_case(t[0], t[1], FORMS[t[2]]), _k=list(t)))
+    strat = st.tuples(st.integers(0, N_DAYS - 1), st.integers(0, 86399), st.sampled_from(FORMS)).map(lambda t: _dt_case(*t))
 
-    def orc(case):
-        oracle_infotime(case)
+    def in_enum(c):
+        y, mo, d, h, mi, s = c["dt"]
+        return ((date(y, mo, d) - D0).days, h * 3600 + mi * 60 + s, FORMS.index(c["form"])) in seen
 
     def hyp(shard, t: Tally):
-        ctx.hypothesis(sub.name, strat, orc, ctx.pick(150, 4000), tally=t, shard=shard,
-                       record=lambda c, tt: tt.case(sub.name, key={"dt": c["dt"], "form": c["form"]}, nontrivial=(c["dt"][3:] != [0, 0, 0] and tuple(c["_k"]) not in seen), cls="random:" + c["form"]))
+        ctx.hypothesis(sub.name, strat, oracle_infotime, ctx.pick(150, 4000), tally=t, shard=shard,
+                       record=lambda c, tt: tt.case(sub.name, key=c, nontrivial=(c["dt"][3:] != [0, 0, 0] and not in_enum(c)), cls="random:" + c["form"]))
 
     ctx.shards(hyp, list(range(16)))
 
